@@ -770,3 +770,8 @@ complete -o nospace -F _{command} {command}
     )?;
     Ok(())
 }
+
+#[cfg(feature = "verif")]
+pub fn verif_make_string_constant(s: &str) -> String {
+    make_string_constant(s)
+}
